@@ -270,3 +270,61 @@ Proof.
   exists data. split; [exact Hne|]. split; [exact Hc|]. cbn in Hk.
   destruct (is_suffix LOGIN_P data); [reflexivity | discriminate].
 Qed.
+
+(* ================================================================== the U-Boot stage *)
+Lemma write_raw_time s sts c r c' sts' :
+  slow c = None -> write_raw s sts c = (r, c', sts') -> nowc c' = nowc c /\ slow c' = None /\ r <> EBlocked.
+Proof.
+  intros Hs. unfold write_raw. destruct s as [|x s0]; [intros [= <- <- <-]; split; [reflexivity|]; split; [exact Hs | discriminate]|].
+  destruct (write (x :: s0) true (load (hd_stage sts) c)) as [r1 c1] eqn:E. intros [= <- <- <-].
+  assert (Hs' : slow (load (hd_stage sts) c) = None) by exact Hs.
+  destruct (write_keeps_time _ _ _ _ _ Hs' E) as [T1 S1]. split; [exact T1|]. split; [exact S1|].
+  assert (SOK : slow_ok (load (hd_stage sts) c)) by (unfold slow_ok; rewrite Hs'; exact I).
+  destruct (write_complete _ _ _ _ _ SOK E) as [(-> & _) | (-> & _)]; discriminate.
+Qed.
+
+(* the prompt poll loop: the deadline is looked at once per iteration (0.5 s wait + 0.5 s sleep), so the loop ends
+   no later than one polling interval after the deadline -- whatever the console does *)
+Theorem poll_loop_deadline fuel : forall cfg T start sts c r c' sts',
+  u_timeout cfg = Some T -> slow c = None ->
+  (nowc c <= start + T + 2 * HALF)%Z ->
+  poll_loop fuel cfg start sts c = (r, c', sts') ->
+  (nowc c' <= start + T + 2 * HALF)%Z /\ never_blocks r.
+Proof.
+  induction fuel as [|f IH]; intros cfg T start sts c r c' sts' HT Hs Hle; cbn [poll_loop].
+  - intros [= <- <- <-]. split; [exact Hle | unfold never_blocks; congruence].
+  - rewrite HT. change (now (io c)) with (nowc c).
+    destruct (T <? nowc c - start)%Z eqn:Eh; [intros [= <- <- <-]; split; [exact Hle | unfold never_blocks; congruence]|].
+    apply Z.ltb_ge in Eh.
+    destruct (read_until_prompt None (Some HALF) c) as [e1 c1] eqn:E1.
+    assert (HH : (0 <= HALF)%Z) by (unfold HALF; lia).
+    destruct (deadline_read_until_prompt _ HALF _ _ _ HH E1) as (D1 & _ & B1).
+    destruct (rup_slow _ _ _ _ _ E1) as [S1 _]. rewrite Hs in S1.
+    destruct e1 as [o1| | | | | |]; try (intros HX; injection HX as <- <- <-; split; [unfold HALF in *; lia | unfold never_blocks, berr; cbn; congruence]).
+    destruct (write_raw [3%N] sts c1) as [[e2 c2] sts2] eqn:E2.
+    destruct (write_raw_time _ _ _ _ _ _ S1 E2) as (T2 & S2 & B2).
+    destruct e2 as [u2| | | | | |]; try (intros HX; injection HX as <- <- <-; split; [unfold HALF in *; lia | unfold never_blocks, berr; cbn; congruence]).
+    intros HL. apply (IH cfg T start sts2 _ r c' sts' HT) in HL; [exact HL | exact S2|].
+    unfold nowc, io_sleep. cbn. unfold nowc in *. unfold HALF in *. lia.
+Qed.
+
+Theorem uboot_deadline fuel cfg T sts c r c' sts' :
+  u_timeout cfg = Some T -> (0 <= T)%Z -> slow c = None ->
+  uboot_bringup fuel cfg sts c = (r, c', sts') ->
+  (nowc c' <= nowc c + T + 2 * HALF)%Z /\ never_blocks r.
+Proof.
+  intros HT H0 Hs. unfold uboot_bringup. change (now (io c)) with (nowc c).
+  destruct (u_autoboot cfg).
+  - rewrite HT. replace (T - (nowc c - nowc c))%Z with T by lia.
+    destruct (read_until_prompt (Some (SRe AUTOBOOT_RE)) (Some T) c) as [e1 c1] eqn:E1.
+    destruct (deadline_read_until_prompt _ T _ _ _ H0 E1) as (D1 & _ & B1).
+    destruct (rup_slow _ _ _ _ _ E1) as [S1 _]. rewrite Hs in S1.
+    destruct e1 as [o1| | | | | |]; try (intros HX; injection HX as <- <- <-; split; [unfold HALF; lia | unfold never_blocks, berr; cbn; congruence]).
+    destruct (write_raw (u_keys cfg) sts c1) as [[e2 c2] sts2] eqn:E2.
+    destruct (write_raw_time _ _ _ _ _ _ S1 E2) as (T2 & S2 & B2).
+    destruct e2 as [u2| | | | | |]; try (intros HX; injection HX as <- <- <-; split; [unfold HALF; lia | unfold never_blocks, berr; cbn; congruence]).
+    intros HL. apply (poll_loop_deadline fuel cfg T (nowc c) sts2 _ r c' sts' HT) in HL; [exact HL | exact S2|].
+    unfold nowc in *. cbn. unfold HALF. lia.
+  - intros HL. apply (poll_loop_deadline fuel cfg T (nowc c) sts _ r c' sts' HT) in HL; [exact HL | exact Hs|].
+    unfold nowc. cbn. unfold HALF. lia.
+Qed.
